@@ -2,9 +2,9 @@
 //! bit-level reference (integer round-to-nearest-even, exact truncation of
 //! dyadic rationals).
 
-use checks::domain::{fills, Domain, Piece};
-use checks::fmts::IntS;
-use checks::for_int_fmts;
+use scalar::domain::{fills, Domain, Piece};
+use scalar::fmts::IntS;
+use scalar::for_int_fmts;
 use common::refmodel::{f32_to_f64, f64_to_f32, f64_to_int, int_to_f32, int_to_f64, Fmt, INT_FMTS};
 use common::{catch, guard, json, Ctx, Value};
 use dasp_sample::{FromSample, Sample, ToSample, I24, I48, U24, U48};
